@@ -234,6 +234,9 @@ func (w *Walker) EventsOf(fr *Frame) []*Event {
 			if kind == "" {
 				continue
 			}
+			if fr.Fn.Parent() != nil && w.revertsOnFailure(fr) && failureOnlyCleanup(ins) {
+				continue // a compensating clean-up that runs only when the (reverted) message fails
+			}
 			ev := &Event{Fr: fr, Kind: kind, Site: ins}
 			c := ci.Common()
 			if c.IsInvoke() && strings.HasPrefix(kind, "nft.") {
@@ -2519,4 +2522,33 @@ func (w *Walker) valueEqualsFacts(fr *Frame, v ssa.Value, c *ssa.Const, depth in
 		return nil
 	}
 	return flat(common)
+}
+
+// revertsOnFailure: the chain starts at an entry whose failure reverts everything it did
+// (a message handler, an ante handler, an EVM hook) - not a block handler, a service
+// callback or genesis.
+func (w *Walker) revertsOnFailure(fr *Frame) bool {
+	root := fr
+	for root.Parent != nil {
+		root = root.Parent
+	}
+	if w.cx.entryRoles == nil {
+		w.cx.entryRoles = map[*ssa.Function]map[string]bool{}
+		for _, e := range w.cx.Entries {
+			if w.cx.entryRoles[e.Fn] == nil {
+				w.cx.entryRoles[e.Fn] = map[string]bool{}
+			}
+			w.cx.entryRoles[e.Fn][e.Role] = true
+		}
+	}
+	roles := w.cx.entryRoles[root.Fn]
+	if len(roles) == 0 {
+		return false
+	}
+	for r := range roles {
+		if r != "msg" && r != "ante" && r != "hook" && r != "query" {
+			return false
+		}
+	}
+	return true
 }
